@@ -8,8 +8,10 @@ package vrt
 
 import (
 	"fmt"
+	"runtime"
 	"runtime/debug"
 	"sort"
+	"strings"
 )
 
 // Op describes the operation a thread is about to perform at a scheduling point.
@@ -168,6 +170,22 @@ func Point(op *Op) {
 	s.Points++
 	if op.Enabled() && !s.Policy.Preempt(t, op) {
 		return
+	}
+	if op.Site == "" {
+		// where in the code under test the thread parks (only computed on the slow path)
+		for skip := 2; skip < 6; skip++ {
+			_, file, line, ok := runtime.Caller(skip)
+			if !ok {
+				break
+			}
+			if !strings.Contains(file, "/vrt/") {
+				if i := strings.LastIndex(file, "/"); i >= 0 {
+					file = file[i+1:]
+				}
+				op.Site = fmt.Sprintf("%s:%d", file, line)
+				break
+			}
+		}
 	}
 	t.Pending = op
 	if s.Trace != nil {
